@@ -119,10 +119,12 @@ def source(V, kind, name="s"):
     else:
         o = M.mk_mol(V, kind, 3, ((0, 1), (2, 1)), name=name, full=True)
     o.fields["attrib"] = DictV([("note", Opaque("obj:attr-value"))])
-    for a in o.fields["_atoms"].items:
-        a.fields["attrib"] = DictV([("k", V.sym(a.tag + "_k", "int"))])
-    for b in o.fields.get("_bonds", ListV()).items:
-        b.fields["attrib"] = DictV([("w", V.sym(b.tag + "_w", "int"))])
+    for n_, a in enumerate(o.fields["_atoms"].items):
+        # the last atom / bond carries an EMPTY attribute dictionary (the common case): it must not be shared either
+        a.fields["attrib"] = DictV([("k", V.sym(a.tag + "_k", "int"))]) if n_ < len(o.fields["_atoms"].items) - 1 else DictV()
+    bl_ = o.fields.get("_bonds", ListV()).items
+    for n_, b in enumerate(bl_):
+        b.fields["attrib"] = DictV([("w", V.sym(b.tag + "_w", "int"))]) if n_ < len(bl_) - 1 else DictV()
     V.assume(to_z3(o.fields["mult"], "int") >= 1)
     return o
 
@@ -223,6 +225,52 @@ for _k in ["Molecule", "Structure", "Promolecule", "ConformerEnsemble"]:
                       f"{M.BOND}.__getstate__", f"{M.BOND}.__setstate__"])(pickle_unit(_k))
 
 
+def deepcopy_unit(kind):
+    """copy.deepcopy: the class's own __deepcopy__ when it defines one, else the generic state round trip (same protocol model as
+    pickle).  A deep copy must not share nested mutable attribute VALUES either (that is what distinguishes it from a copy)."""
+    def body(V):
+        I, st = V.I, V.st
+        src = source(V, kind)
+        nested = ListV([V.sym("nested0", "int")])
+        src.fields["attrib"] = DictV([("note", Opaque("obj:attr-value")), ("results", nested)])
+        anest = ListV([V.sym("anested0", "int")])
+        src.fields["_atoms"].items[0].fields["attrib"] = DictV([("k", V.sym("ak", "int")), ("shifts", anest)])
+        V.witness(lambda ev: {"op": "deepcopy", "kind": kind, "signature": f"deepcopy/{kind}"})
+        V.cover()
+        dc, owner = src.cls.lookup("__deepcopy__")
+        try:
+            if dc is not None and not getattr(owner, "builtin", False):
+                I.target = f"{M.CLS[kind]}.__deepcopy__"
+                res = I.call(I.bind(dc, src), [DictV()], {})
+            else:
+                I.target = f"{M.CLS['Promolecule']}.__getstate__"
+                res = pickle_rt(I, src)
+        except PyExc:
+            V.ensure("deepcopy/returns", z3.BoolVal(False))
+            return
+        V.ensure("deepcopy/returns", z3.BoolVal(True))
+        ok = isinstance(res, Obj) and isinstance(res.fields.get("attrib"), DictV) and isinstance(res.fields.get("_atoms"), ListV) and len(res.fields["_atoms"].items) == 3
+        V.ensure("deepcopy/shape", z3.BoolVal(bool(ok)))
+        if not ok:
+            return
+        independent(V, [src], res, "deepcopy")
+        ra = res.fields["attrib"]
+        r_n = ra.vals[ra.keys.index("results")] if "results" in ra.keys else None
+        aa = res.fields["_atoms"].items[0].fields.get("attrib")
+        a_n = aa.vals[aa.keys.index("shifts")] if isinstance(aa, DictV) and "shifts" in aa.keys else None
+        V.ensure("deepcopy/nested-attribute-values-are-copied-not-shared",
+                 z3.BoolVal(isinstance(r_n, ListV) and r_n is not nested and isinstance(a_n, ListV) and a_n is not anest))
+        if isinstance(r_n, ListV) and isinstance(a_n, ListV):
+            V.ensure("deepcopy/nested-attribute-values-equal", I.and_(I.eq(r_n.items[0], nested.items[0]) if len(r_n.items) == 1 else False,
+                                                                      I.eq(a_n.items[0], anest.items[0]) if len(a_n.items) == 1 else False))
+    return body
+
+
+for _k in ["Molecule", "Structure", "ConformerEnsemble"]:
+    P.unit(f"{M.CLS[_k]}.__init__", name=f"copy.deepcopy of a {_k}: nothing shared, nested attribute values included",
+           functions=[f"{M.CLS['Promolecule']}.__getstate__", f"{M.CLS['Promolecule']}.__setstate__"])(deepcopy_unit(_k))
+
+
 @P.unit(f"{M.ATOM}.evolve", name="Atom.evolve / Bond.evolve", functions=[f"{M.ATOM}.evolve", f"{M.BOND}.evolve"])
 def _evolve(V):
     I, st = V.I, V.st
@@ -265,6 +313,18 @@ def _concat(V):
     ra = res.fields["_atoms"].items
     V.ensure("derive/all-atoms-and-bonds-of-both", z3.BoolVal(len(ra) == 6 and len(res.fields["_bonds"].items) == 4))
     independent(V, [a, b], res, "derive")
+    okp = True
+    for j, y in enumerate(ra):
+        try:
+            okp = okp and I.getattr_(y, "parent") is res and I.getattr_(y, "idx") == j
+        except PyExc:
+            okp = False
+    for y in res.fields["_bonds"].items:
+        try:
+            okp = okp and I.getattr_(y, "parent") is res
+        except PyExc:
+            okp = False
+    V.ensure("derive/atoms-and-bonds-of-the-product-belong-to-it", z3.BoolVal(bool(okp)))
     V.ensure("derive/sources-keep-their-atoms-bonds-and-parents",
              z3.BoolVal(set(footprint(a)) == set(fa) and set(footprint(b)) == set(fb)
                         and all(x.fields["_parent"].fields["ref"] is a for x in a.fields["_atoms"].items)
